@@ -7,6 +7,7 @@
     unreach  one address keeps failing "unreachable"   -> still waiting, no hook
 -/
 import NV.Model.SvcStart
+import NV.Model.SvcLife
 namespace NV
 open NV.SvcStart
 
@@ -37,6 +38,42 @@ def stepSvcStart (toks : List String) : Option String :=
         -- listeners died in between (NV.SvcStart.stopHooks)
         let stop := if r = .started then s!" stop={stopHooks true (kind = "died")}" else ""
         some s!"result={r.str} hooks={hooks} bound={bound}{stop}"
+  | _ => none
+
+/-- `svclife <naddrs> <ops>`: a history of calls on ONE service object (NV.SvcLife):
+  S  Start(), every address free          F  Start(), the last address taken (bind error)
+  T  Stop()                               R  Restart()
+  K  the listeners die under the running service
+after each operation: `<op>=<result>,<start-up rounds>,<shut-down rounds>,<serving>`. -/
+def stepSvcLife (toks : List String) : Option String :=
+  match toks with
+  | ["svclife", ns, ops] =>
+    match ns.toNat? with
+    | none => some "bad-op"
+    | some n =>
+      if n = 0 ∨ n > 4 ∨ ops.isEmpty then some "bad-op" else
+      let opOf : Char → Option SvcLife.Op
+        | 'S' => some (.start [.bound])
+        | 'F' => some (.start [.failed])
+        | 'T' => some .stop
+        | 'R' => some (.restart .bound)
+        | 'K' => some .die
+        | _ => none
+      let rec go (s : SvcLife.St) (cs : List Char) (acc : List String) : Option (List String) :=
+        match cs with
+        | [] => some acc.reverse
+        | c :: rest =>
+          match opOf c with
+          | none => none
+          | some o =>
+            match SvcLife.step s o with
+            | none => none
+            | some (s', r) =>
+              let rs := match r with | .ok => "ok" | .err => "err" | .hung => "hung"
+              go s' rest (s!"{c}={rs},{SvcLife.ups s'},{SvcLife.downs s'},{if s'.serving then 1 else 0}" :: acc)
+      match go SvcLife.init ops.toList [] with
+      | none => some "bad-op"
+      | some out => some (" ".intercalate out)
   | _ => none
 
 end NV
